@@ -10,6 +10,7 @@ package gabi
 import (
 	"encoding/json"
 	"fmt"
+	"math"
 	gobig "math/big"
 	"sort"
 	"testing"
@@ -524,8 +525,9 @@ func (h *harnessRange) commit(rt *rapid.T) []*big.Int {
 		h.rv = append(h.rv, rnd(fmt.Sprintf("rv%d", i), pk.Params.Lm+pk.Params.Lh+pk.Params.Lstatzk))
 	}
 	h.rv5 = rnd("rv5", pk.Params.Lm+ld+pk.Params.Lh+pk.Params.Lstatzk)
-	if h.mode == "honest" {
-		delta := new(big.Int).Mul(h.m, new(big.Int).SetUint64(uint64(h.a)))
+	if h.mode == "honest" || h.mode == "wrapped-factor" {
+		// the factor as the verifier's relation uses it: a machine integer (wraps for a >= 2^63)
+		delta := new(big.Int).Mul(h.m, bi(int64(h.a)))
 		delta.Sub(delta, h.k)
 		if h.sign == -1 {
 			delta.Neg(delta)
@@ -683,14 +685,46 @@ func TestVF_C12_DegenerateCommitments(t *testing.T) {
 				return
 			}
 		}
+		// factor 2^64 - f: the relation is computed with the machine integer -f, so that
+		// -(−f*m − k) = f*m + k >= 0 holds for every m, while the proof's descriptor says (2^64-f)*m <= k
+		f := uint(rapid.IntRange(1, 4).Draw(rt, "wrapf"))
+		kw := bi(int64(rapid.IntRange(0, 1000).Draw(rt, "wrapk")))
+		ab, err := newAdvBuilder(kp, cred, []int{0, 2, 3}, map[int]*big.Int{1: cred.Attributes[1]})
+		if err != nil {
+			rt.Fatalf("adv: %v", err)
+		}
+		hr := &harnessRange{pk: pk, idx: idx, sign: -1, a: -f, k: kw, m: m, rm: ab.aC[idx], mode: "wrapped-factor"}
+		pl, err := ProofBuilderList{&advRangeWrapper{adv: ab, hr: hr, rt: rt}}.BuildProofList(ctx, nonce, false)
+		if err == nil && !ab.negative {
+			js, _ := json.Marshal(pl)
+			var back ProofList
+			if json.Unmarshal(js, &back) == nil {
+				det := map[string]any{"key": kp.Name, "attrs": fmt.Sprint(attrs), "index": idx, "claim": fmt.Sprintf("sign=-1 factor=2^64-%d k=%s", f, kw), "mode": "wrapped-factor"}
+				var acc bool
+				ps := vfh.Guard(func() { acc = back.Verify(keys1(kp), ctx, nonce, false, nil) })
+				rec.Case("harness-range-prover/wrapped-factor", true, fmt.Sprintf("hw|%s|%v|%d|%d|%s", kp.Name, attrs, idx, f, kw))
+				if ps != "" {
+					rec.Fail(rt, ps+":harness-range-prover:wrapped-factor", det)
+					return
+				}
+				if acc {
+					if v := c12Oracle(back[0].(*ProofD), cred.Attributes); v != "" {
+						rec.Fail(rt, v+":wrapped-factor", det)
+						return
+					}
+				}
+			}
+		}
 	})
 }
-
 
 // fourSquaresSmall: a decomposition of a small non-negative integer into four squares (greedy search)
 func fourSquaresSmall(n int64) []*big.Int {
 	isqrt := func(x int64) int64 {
-		r := int64(0)
+		r := int64(math.Sqrt(float64(x)))
+		for r*r > x {
+			r--
+		}
 		for (r+1)*(r+1) <= x {
 			r++
 		}
